@@ -494,15 +494,88 @@ def negate_shape(arm):
     return ok0 and ok1
 
 
+def group_tail_by_cases(arm, pname):
+    """The group arm ends, for n = length of the rebuilt vector V and l = length of the incoming one:
+         n != l            -> pass(Group(symbol, V))        (run again)
+         n == l and n == 1 -> the single element of V       (unwrap a group of one)
+         n == l and n != 1 -> Group(symbol, V)              (rebuild with the same symbol)
+    whatever the spelling (if/else chain, guard clauses with return, negated tests).  Each result leaf is classified and the conditions
+    it sits under are evaluated for the three cases."""
+    import facts as _f
+    sym_id = strip_ref(subpat(arm["pat"], 0)).get("id")
+    src_id = strip_ref(subpat(arm["pat"], 1)).get("id")
+    body = _f._unreturn(unblock(arm["body"])) if unblock(arm["body"]).get("k") == "Block" else arm["body"]
+    leaves = q.result_leaves(body)
+
+    def classify(leaf):
+        l = peel(leaf)
+        if call_is(l, "optimiser::" + pname) and len(l["args"]) == 1:
+            g = peel(l["args"][0])
+            if g.get("k") == "Adt" and g["variant"] == "BooleanGroup" and q.var_id({f_["name"]: f_["e"] for f_ in g["fields"]}["0"]) == sym_id:
+                return "rerun", q.var_id({f_["name"]: f_["e"] for f_ in g["fields"]}["1"])
+        if l.get("k") == "Adt" and l["adt"] == "parser::Expression" and l["variant"] == "BooleanGroup":
+            fs = {f_["name"]: f_["e"] for f_ in l["fields"]}
+            if q.var_id(fs["0"]) == sym_id:
+                return "rebuild", q.var_id(fs["1"])
+        if (call_is(l, "::expect") or call_is(l, "::unwrap")) and call_is(peel(l["args"][0]), "Iterator::next"):
+            it = peel(peel(l["args"][0])["args"][0])
+            if call_is(it, "IntoIterator::into_iter"):
+                return "unwrap", q.var_id(it["args"][0])
+        return None, None
+    kinds = [classify(l) for l, _ in leaves]
+    vecs = {v for _, v in kinds}
+    if len(leaves) != 3 or sorted(k for k, _ in kinds) != ["rebuild", "rerun", "unwrap"] or len(vecs) != 1 or None in vecs:
+        return False
+    vid = list(vecs)[0]
+
+    def value(e, case):
+        """e under case (n_ne_l, n_is_1) -> bool or None"""
+        e = q.resolve(body, e)
+        if e.get("k") == "Unary" and e["op"] == "Not":
+            v_ = value(e["arg"], case)
+            return None if v_ is None else not v_
+        if e.get("k") == "Binary" and e["op"] in ("Eq", "Ne"):
+            l_, r_ = q.resolve(body, e["lhs"]), q.resolve(body, e["rhs"])
+            def is_n(x):
+                return call_is(x, "::len") and q.base_var(x["args"][0]) == vid
+            def is_l(x):
+                return call_is(x, "::len") and q.base_var(x["args"][0]) == src_id
+            if (is_n(l_) and is_l(r_)) or (is_l(l_) and is_n(r_)):
+                eq = not case[0]
+            elif (is_n(l_) and lit(r_) == ("i", 1)) or (is_n(r_) and lit(l_) == ("i", 1)):
+                eq = case[1]
+            elif case[0] is False and ((is_l(l_) and lit(r_) == ("i", 1)) or (is_l(r_) and lit(l_) == ("i", 1))):
+                eq = case[1]
+            else:
+                return None
+            return eq if e["op"] == "Eq" else not eq
+        return None
+    want = {(True, True): "rerun", (True, False): "rerun", (False, True): "unwrap", (False, False): "rebuild"}
+    for case, wk in want.items():
+        reached = []
+        for (leaf, path), (kind, _) in zip(leaves, kinds):
+            ok_ = True
+            for e in q.context(path, leaf):
+                if e[0] == "if":
+                    v_ = value(e[1], case)
+                    if v_ is None:
+                        return False
+                    if v_ != e[2]:
+                        ok_ = False
+            if ok_:
+                reached.append(kind)
+        if reached != [wk]:
+            return False
+    return True
+
+
 def check_group_unwrap(rep, arm, pname):
     s = show(q.inline_pure_lets(arm["body"], [arm["pat"]]))
-    # (with pure lets substituted: `length` is the length of the incoming vector, `expressions` the rebuilt one)
-    ok = bool(re.search(r"if \(<T, A>::len\((\w+)\) Ne <T, A>::len\(\w+\)\) \{optimiser::%s\(Expression::BooleanGroup\((\w+), \1\)\)\} else \{if \(<T, A>::len\(\1\) Eq 1\) "
-                        r"\{<T>::expect\(Iterator::next\(IntoIterator::into_iter\(\1\)\), \"\.\.\"\)\} else \{Expression::BooleanGroup\(\2, \1\)\}\}" % pname, str(s)))
+    ok = group_tail_by_cases(arm, pname)
     rep.check(ok, "PASS-ARMS", "PASS-ARMS/%s/group-tail" % pname, arm["sp"], "group arm ends: re-run if the length changed, unwrap a group of one, else rebuild with the same symbol", s[-160:])
     # operands are shaken in order in both symbol branches
     src_id = strip_ref(subpat(arm["pat"], 1)).get("id")
-    loops = [n for n in walk(arm["body"]) if n.get("k") == "For" and q.var_id(n["iter"]) == src_id]
+    loops = [n for n in walk(arm["body"]) if n.get("k") == "For" and q.loop_over(n)[0] == src_id]
     def elementwise(l):
         # the loop body is exactly: push(<out>, pass(<this element>))   (the pass result possibly through a let)
         pushes = [x for x in walk(l["body"]) if call_is(x, "::push")]
